@@ -4,6 +4,11 @@ import json, subprocess
 
 CHECKS = {
  # id: (level, technique, text, note, design_ref)
+ "C01": ("exploration",
+         "bounded exhaustive enumeration of circuit programs (all depth-1 gadget programs x operand bindings, all depth-2 chains, catalogue) x boundary input vectors x single-axis configuration deviations, against direct evaluation over the field and an exact satisfaction oracle; real prove/verify on a subset containing every depth-1 program and every configuration",
+         "Every depth-1 program over ~170 gadget templates (arithmetic, extension arithmetic, bit/limb decomposition, range checks, selection, random access, exponentiation, Poseidon hashing, Merkle membership, reductions, lookups) with every operand aliasing, every depth-2 chain, and a catalogue of compositions; inputs = full product of boundary alphabets (0,1,2,p-1,p-2,2^32-1,2^32,2^63 and per-gadget range boundaries). For every (program, input): real witness generation, public inputs compared with an independent direct evaluation, and the generated witness checked by the exact satisfaction oracle (gate constraints from the committed constants, copy classes, sigma-vs-class static invariant); unsatisfying inputs must not yield a satisfying witness. Proof level (prove, verify, verifier_data().verify, compress, verify_compressed, public inputs) for 2-3 inputs of every depth-1 program and for catalogue x 28 configuration deviations (zk, rate, cap, queries, pow, all three reduction strategies, challenge count, quotient factor, wire widths, Keccak); thorough adds all pairs of deviations.",
+         "trusted: harness u128 arithmetic, textbook Poseidon (c13.rs), the gates' own eval_unfiltered inside the satisfaction oracle (gate-level strength is C07's job); admissibility = the builder's own documented asserts",
+         "DESIGN.md §4 C01"),
  "C13": ("model_checking",
          "explicit-state exploration of the challenger state machine (all observe/get sequences up to a depth) against a reference duplex-sponge model, step-by-step conformance on the real Challenger / RecursiveChallenger; bounded exhaustive state enumeration for the permutation layers against textbook Poseidon",
          "Every optimised Poseidon layer and the full permutation on 3^12 uniform-extreme states, all <=2-lane deviations over the representation alphabet from three base states and uniform/single-lane states, against a textbook round-by-round Poseidon on u128 arithmetic (anchored on the published test vectors); all message lengths 0..=40 x output counts for the sponge/compression functions; the challenger explored as a transition system: every sequence in {observe, get}^<=d (Poseidon and Keccak permutations) plus macro-operations, each step compared with a list-based duplex model, and every sequence up to a smaller depth replayed on the in-circuit RecursiveChallenger. Run in the checked profile.",
